@@ -220,7 +220,8 @@ class C19(core.Check):
         "stack cases: Grid of nx x ny (1..5 each) cells with unequal sides, nz (1..4) tiers, extruded / revolved / "
         "transformed (translation + twist), random rigid placement; observed are all of stack.grid, stack.operations, "
         "get_slice for every axis 0..2 and every index 0..size (size itself: IndexError), and the blocks written after "
-        "Mesh.delete of one addressed operation. round cases: each of 15 sketch classes and 11 + 9 shape constructions in a "
+        "Mesh.delete of one addressed operation, the corner points of every addressed face (un-placed) and the operations chopped by "
+        "Stack.chop. round cases: each of 15 sketch classes and 11 + 9 shape constructions in a "
         "random placement and size. Non-trivial = every case (sizes 1x1x1 included as boundary); distinct = different "
         "sizes/kind/placement. The thorough tier enumerates all 5 x 5 x 4 sizes for each of the three stack kinds."
     )
@@ -231,9 +232,11 @@ class C19(core.Check):
         "python list semantics of the modelled loops are validated by correspondence, not verified",
     ]
     partial_note = (
-        "the theorems on cartesian stacks are for all sizes; core/shell theorems are `decide` on tables of the *probe* "
-        "instances generated from the source at every run (topology is placement independent; other placements are covered by "
-        "correspondence + the geometric oracle only); negative indices / axis outside 0..2 are C20's business"
+        "the theorems on cartesian stacks are for all sizes, incl. where the corner points of every Grid face and every extruded tier "
+        "are (over Q); revolved / twisted tiers are located by the harness only. Faces, grid, core, shell of the round sketch classes are "
+        "computed by the model from the ast-regenerated source text; which points lie on the outer rim is still computed geometrically "
+        "on *probe* instances (`decide` on those tables; other placements: correspondence + geometric oracle); point numbering after "
+        "MappedSketch.merge is not modelled; negative indices / axis outside 0..2 are C20's business"
     )
 
     # ------------------------------------------------------------------ generators
@@ -446,22 +449,18 @@ class C19(core.Check):
                 break
             pts.append([[[[unplace(q, pl) for q in face.point_array.tolist()] for face in (op.bottom_face, op.top_face)]
                          for op in row] for row in shape_grid])
-        # Stack.chop on a fresh stack: which operations receive a chop, on which axis
+        # Stack.chop: which operations receive a chop, on which axis (the chops are taken off again afterwards)
         chopped: Any = []
         try:
-            fresh = build_stack(case)
-            fresh.chop(count=3)
-            for shape in fresh.shapes:
-                for op in shape.operations:
-                    n_chops = [len(op.chops[a]) for a in range(3)]
-                    if n_chops != [0, 0, 0]:
-                        l = lab(
-                            nearest(op.bottom_face.center.tolist(), centres, tol, range(nz)),
-                            nearest(op.top_face.center.tolist(), centres, tol, range(1, nz + 1)),
-                        )
-                        chopped.append([l, n_chops])
+            stack.chop(count=3)
+            for op in stack.operations:
+                n_chops = [len(op.chops[a]) for a in range(3)]
+                if n_chops != [0, 0, 0]:
+                    chopped.append([labels.get(id(op), "?"), n_chops])
         except Exception as e:
             chopped = type(e).__name__
+        for op in stack.operations:
+            op.chops = {0: [], 1: [], 2: []}
         # delete one addressed operation and look at the written blocks
         deleted: Any = None
         attrs: List[Any] = []
